@@ -942,3 +942,118 @@ class PhaseSpaceCtor12(Contract):
                         Implies(And(k >= 0, k < nx), cx.sel('this._axis[0]._data', k) == cx.a('qmin') + z3.ToReal(k) * r0['delta']),
                         Implies(And(k >= 0, k < ny), cx.sel('this._axis[1]._data', k) == cx.a('pmin') + z3.ToReal(k) * r1['delta']))))
         return out
+
+
+# =========================================================================== Gaussian start distribution
+class CreateFromProjections(PSMethod):
+    """createFromProjections(): data[n][x][y] = projection[0][n][x] * projection[1][n][y] for every cell of every bunch, then
+    the x-projection and the populations are refreshed and every bunch is rescaled to its nominal share"""
+    name = 'vfps::PhaseSpace::createFromProjections'
+    tags = {'C09', 'C17'}
+    ghosts = {'n': 'int', 'x': 'int', 'y': 'int'}
+    uf_mul = True
+
+    def assigns(self, cx):
+        nx, ny, nb = ps_globals(cx)
+        t = cx.this or 'this'
+        return [('r', t + '._data'), ('r', t + '._projection', I(0), nb * nx), ('r', t + '._filling'), ('s', t + '._integral')]
+
+    @property
+    def calls(self):
+        g3 = lambda cx: [{'n': cx.ghost_of('n'), 'x': cx.ghost_of('x'), 'y': cx.ghost_of('y')}]
+        return {'updateXProjection': Use(UpdateXProjection(), inst=lambda cx: [{'n': cx.ghost_of('n'), 'x': cx.ghost_of('x'), 'k': cx.ghost_of('x')}]),
+                'integrate': Use(Integrate(), inst=lambda cx: [{'n': cx.ghost_of('n')}]),
+                'normalize': Use(Normalize(), inst=g3)}
+
+    def value(self, cx, n, x, y):
+        nx, ny, nb = ps_globals(cx)
+        return models.FMUL(cx.old.sel('this._projection', n * nx + x), cx.old.sel('this._projection', (nb + n) * nx + y))
+
+    def ensures(self, cx):
+        nx, ny, nb = ps_globals(cx)
+        n, x, y = cx.g('n'), cx.g('x'), cx.g('y')
+        s_, f_ = cx.sel('this._filling_set', n), cx.sel('this._filling', n)
+        want = If(s_ > 0, self.value(cx, n, x, y) * (s_ / f_), z3.RealVal(0))
+        return [('product_rescaled_to_share', {'C09'}, Implies(And(n >= 0, n < nb, x >= 0, x < nx, y >= 0, y < ny), cx.sel('this._data', (n * nx + x) * ny + y) == want)),
+                ('frame', {'C12'}, self.unchanged(cx, '_ws', '_filling_set'))]
+
+    def before(self, cx, n, x, y):
+        gn, gx, gy = cx.g('n'), cx.g('x'), cx.g('y')
+        return Or(gn < n, And(gn == n, gx < x), And(gn == n, gx == x, gy < y))
+
+    def _inv(self, level):
+        def inv(cx):
+            nx, ny, nb = ps_globals(cx)
+            n = cx.v('n')
+            x = cx.v('x') if level >= 1 else I(0)
+            y = cx.v('y') if level >= 2 else I(0)
+            gn, gx, gy = cx.g('n'), cx.g('x'), cx.g('y')
+            rng = [n >= 0, n <= nb] if level == 0 else ([n >= 0, n < nb, x >= 0, x <= nx] if level == 1 else [n >= 0, n < nb, x >= 0, x < nx, y >= 0, y <= ny])
+            return [('range', And(*rng)),
+                    ('done', Implies(And(gn >= 0, gx >= 0, gx < nx, gy >= 0, gy < ny, self.before(cx, n, x, y)),
+                                     cx.sel('this._data', (gn * nx + gx) * ny + gy) == self.value(cx, gn, gx, gy))),
+                    ('frame', self.unchanged(cx, '_projection', '_ws', '_filling', '_filling_set'))]
+        return inv
+
+    def _hints(self, cx, cxb):
+        nx, ny, nb = ps_globals(cx)
+        n, x, y = cxb.v('n'), cxb.v('x'), cxb.v('y')
+        gn, gx, gy = cx.g('n'), cx.g('x'), cx.g('y')
+        inr = And(gn >= 0, gx >= 0, gx < nx, gy >= 0, gy < ny)
+        flat = lambda a, b, c: (a * nx + b) * ny + c
+        return [('p1', Implies(n - gn - 1 >= 0, (n - gn - 1) * nx >= 0)), ('p1b', Implies(n - gn - 1 >= 0, (n - gn - 1) * nx * ny >= 0)),
+                ('rowlt', Implies(And(inr, gn == n, gx < x), (x - gx - 1) * ny >= 0)),
+                ('lex', Implies(And(inr, self.before(cx, n, x, y)), flat(gn, gx, gy) < flat(n, x, y))),
+                ('p2', Implies(And(n >= 0, n < nb), (nb - 1 - n) * nx >= 0)), ('p2b', Implies(And(n >= 0, n < nb), (nb - 1 - n) * nx * ny >= 0)),
+                ('p3', Implies(And(x >= 0, x < nx), (nx - 1 - x) * ny >= 0)),
+                ('top', flat(n, x, y) < nb * nx * ny), ('ptop', And(n * nx + x < nb * nx, (nb + n) * nx + y < 2 * nb * nx))]
+
+    @property
+    def loops(self):
+        ly = LoopSpec(inv=self._inv(2), hints=self._hints)
+        same = lambda cx, cxb: And(cx.g('n') == cxb.v('n'), cx.g('x') == cxb.v('x'), cx.g('y') == cxb.v('y'))
+        ly.split = lambda cx, cxb: [('cur', same(cx, cxb)), ('other', Not(same(cx, cxb)))]
+        return {'n#0': LoopSpec(inv=self._inv(0)), 'x#0': LoopSpec(inv=self._inv(1)), 'y#0': ly}
+
+
+class Gaus(PSMethod):
+    """gaus(axis, zoom): the unit Gaussian sampled on the grid lines of the axis, rv[i] = 1/sqrt(2 pi) * exp(-x_i^2 / (2 zoom^2))"""
+    name = 'vfps::PhaseSpace::gaus'
+    params = ['axis', 'zoom']
+    tags = {'C09', 'C17'}
+    ghosts = {'g': 'int'}
+    cases = [{'axis': 0}, {'axis': 1}]
+
+    def requires(self, cx):
+        return PSMethod.requires(self, cx) + [('zoom', cx.a('zoom') != 0)]
+
+    def assigns(self, cx):
+        return []
+
+    def value(self, cx, i):
+        ax = z3.simplify(cx.a('axis')).as_long() if z3.is_int_value(z3.simplify(cx.a('axis'))) else 0
+        xi = cx.old.sel(f'this._axis[{ax}]._data', i)
+        z2 = cx.a('zoom') * cx.a('zoom')
+        return models.uf_const('ONE_DIV_ROOT_TWO_PI') * models.uf('exp')(Rq(-1, 2) * xi * xi / z2)
+
+    def ensures(self, cx):
+        nx, ny, nb = ps_globals(cx)
+        g = cx.g('g')
+        rv = cx.ret
+        if not isinstance(rv, ObjRef):
+            return [('returns_array', {'C09'}, z3.BoolVal(False))]
+        return [('len', {'C09', 'C17'}, cx.st.len_of(rv.name) == nx),
+                ('gaussian', {'C09'}, Implies(And(g >= 0, g < nx), z3.Select(cx.st.array(rv.name, '', parse_type_str('float')), g) == self.value(cx, g)))]
+
+    def _inv(self, cx):
+        nx, ny, nb = ps_globals(cx)
+        i, g = cx.v('i'), cx.g('g')
+        rv = cx.val('rv').name
+        return [('range', And(i >= 0, i <= nx, cx.v('maxi') == nx)), ('len', cx.st.len_of(rv) == nx),
+                ('done', Implies(And(g >= 0, g < i), z3.Select(cx.st.array(rv, '', parse_type_str('float')), g) == self.value(cx, g)))]
+
+    @property
+    def loops(self):
+        l = LoopSpec(inv=self._inv)
+        l.split = split_ghost('i', 'g')
+        return {'i#0': l}
